@@ -69,6 +69,7 @@ OBJ = Prim("obj", Z)  # opaque object ids (typing.Any); 0 is None
 BYTES = Prim("bytes", z3.StringSort())
 INTINF = Prim("intinf", Z)  # `int >= 0 or math.inf`: +inf is encoded as -1 (no real arithmetic needed)
 OPTINT = Prim("optint", Z)  # `int | None` where the int is known to be >= 0: None is encoded as -1
+OPTREAL = Prim("optreal", R)  # `float | None` for an expiry time: None ("never") is encoded as the opaque +infinity
 
 
 class RefT(Ty):
